@@ -101,8 +101,11 @@ struct Log {
     att: BTreeMap<(usize, usize, u8), usize>,
     t0: Option<Instant>,
     xch: Vec<Xch>,
-    sleeps: Vec<(u64, f64)>,
+    /// (requested ms, overshoot ms, start offset ms)
+    sleeps: Vec<(u64, f64, f64)>,
     serial: usize,
+    /// de-duplication schedule as it happened: (kind, a, b), kinds as in Check.v dev_of
+    evs: Vec<(u8, usize, usize)>,
 }
 
 thread_local! {
@@ -124,9 +127,10 @@ struct LogTime;
 impl Time for LogTime {
     async fn delay_for(duration: Duration) {
         let st = Instant::now();
+        let start = LOG.with(|l| l.borrow().t0.map(ms_since).unwrap_or(0.0));
         tokio::time::sleep(duration).await;
         let over = (st.elapsed().as_secs_f64() - duration.as_secs_f64()) * 1000.0;
-        LOG.with(|l| l.borrow_mut().sleeps.push((duration.as_millis() as u64, over)));
+        LOG.with(|l| l.borrow_mut().sleeps.push((duration.as_millis() as u64, over, start)));
     }
     async fn timeout<F: 'static + Future + Send>(duration: Duration, future: F) -> Result<F::Output, io::Error> {
         tokio::time::timeout(duration, future).await.map_err(|_| io::Error::new(io::ErrorKind::TimedOut, "future timed out"))
@@ -251,6 +255,7 @@ impl DnsHandle for Conn {
                 let end = ms_since(l.t0.unwrap());
                 l.xch[idx].over = Some(over);
                 l.xch[idx].end_ms = Some(end);
+                l.evs.push((1, serial, 0));
             });
             match oc {
                 O_ANS => reply(&request, ResponseCode::NoError, false, Some((srv, serial))),
@@ -343,8 +348,27 @@ struct LkObs {
     who: u64,
     fin_ms: f64,
     xch: Vec<Xch>,
-    sleeps: Vec<(u64, f64)>,
+    sleeps: Vec<(u64, f64, f64)>,
     drift: f64,
+}
+
+/// time not accounted for by a scripted exchange or a requested sleep being in progress:
+/// scheduling delays, timer overshoot, start-up cost (the pool is otherwise always waiting
+/// for one of the two)
+fn unexplained(fin: f64, xch: &[Xch], sleeps: &[(u64, f64, f64)]) -> f64 {
+    let mut iv: Vec<(f64, f64)> = xch.iter().map(|x| (x.start_ms, (x.start_ms + x.lat as f64).min(fin))).collect();
+    iv.extend(sleeps.iter().map(|s| (s.2, (s.2 + s.0 as f64).min(fin))));
+    iv.sort_by(|a, b| a.partial_cmp(b).unwrap());
+    let mut covered = 0.0;
+    let mut end = 0.0f64;
+    for (a, b) in iv {
+        let a = a.max(end);
+        if b > a {
+            covered += b - a;
+            end = b;
+        }
+    }
+    fin - covered
 }
 
 fn run_pool(c: &PoolCase) -> Vec<LkObs> {
@@ -353,6 +377,7 @@ fn run_pool(c: &PoolCase) -> Vec<LkObs> {
     });
     let rt = tokio::runtime::Builder::new_current_thread().enable_time().build().unwrap();
     let pool = build_pool(c);
+    rt.block_on(tokio::time::sleep(Duration::from_millis(2)));
     let mut out = vec![];
     rt.block_on(async {
         for _ in 0..c.lookups {
@@ -370,7 +395,7 @@ fn run_pool(c: &PoolCase) -> Vec<LkObs> {
                 let l = l.borrow();
                 (l.xch.clone(), l.sleeps.clone())
             });
-            let drift = xch.iter().filter_map(|x| x.over).sum::<f64>() + sleeps.iter().map(|s| s.1).sum::<f64>();
+            let drift = unexplained(fin_ms, &xch, &sleeps);
             out.push(LkObs { res, who, fin_ms, xch, sleeps, drift });
         }
     });
@@ -416,7 +441,7 @@ fn gen_pool(r: &mut Rng) -> (PoolCase, &'static str) {
                 _ => (O_IO, lat),
             }
         };
-        let mut script = |r: &mut Rng, is_udp: bool| -> Vec<(u8, u64)> {
+        let script = |r: &mut Rng, is_udp: bool| -> Vec<(u8, u64)> {
             let roll = r.below(100);
             let mut v = match roll {
                 0..=27 => vec![(O_ANS, lat)],
@@ -536,7 +561,7 @@ fn pool_oracle(c: &PoolCase, li: usize, o: &LkObs) -> (Option<String>, Option<St
     let lmax = c.srvs.iter().flat_map(|s| s.su.iter().chain(s.st.iter())).map(|x| x.1).max().unwrap_or(0) as f64;
     let tcp_loop = c.srvs.iter().any(|s| s.tcp && s.st.iter().any(|x| x.0 == O_TRUNC || x.0 == O_CASE));
     // (1) completion bound that the code can meet: every round starts before the deadline
-    if o.fin_ms > t + 2.0 * lmax + SLACK {
+    if o.fin_ms > t + lmax + 50.0 + SLACK {
         return (Some(format!("lookup {li}: completed after {:.0} ms, timeout {} ms, slowest exchange {} ms", o.fin_ms, c.timeout, lmax)), None);
     }
     // (2) per-server exchange count: first try, one retry after UDP was disabled, four Busy retries,
@@ -591,6 +616,12 @@ fn pool_oracle(c: &PoolCase, li: usize, o: &LkObs) -> (Option<String>, Option<St
             return (Some(format!("lookup {li}: a healthy server exists but the lookup failed with result {} after {:.0} ms", o.res, o.fin_ms)), None);
         }
     }
+    // (3b) the same for a healthy server that only speaks UDP
+    let healthy_udp = c.srvs.iter().any(|s| s.udp && !s.tcp && s.su.iter().all(|x| x.0 == O_ANS));
+    if healthy_udp && !any_final && !answered && !deadline && li == 0 {
+        let known = if dis_udp { Some("C18-udp-only-dropped-after-truncation".to_string()) } else if tcp_loop { Some("C18-tcp-truncation-loop".to_string()) } else { None };
+        return (Some(format!("lookup {li}: a healthy UDP-only server exists but the lookup failed with result {}", o.res)), known);
+    }
     // (4) the deadline clause as stated: no later than the configured timeout
     if o.fin_ms > t + SLACK {
         return (
@@ -601,21 +632,21 @@ fn pool_oracle(c: &PoolCase, li: usize, o: &LkObs) -> (Option<String>, Option<St
     (None, None)
 }
 
-fn pool_case(seed: u64, index: u64, r: &mut Rng) -> CaseOut {
-    let (c, family) = gen_pool(r);
+fn pool_case(seed: u64, index: u64, c: PoolCase, family: &str) -> CaseOut {
     let text_in = case_text(&c);
     let mut obs = vec![];
     let mut noisy = true;
     for _try in 0..4 {
         obs = run_pool(&c);
-        if obs.iter().all(|o| o.drift < 25.0) {
+        if obs.iter().all(|o| o.drift < 30.0) {
             noisy = false;
             break;
         }
     }
     let mut oracle_fail = None;
     let mut known = None;
-    for (li, o) in obs.iter().enumerate() {
+    // after four noisy runs the case is dropped: neither oracle nor model comparison are meaningful
+    for (li, o) in obs.iter().enumerate().filter(|_| !noisy) {
         let (f, k) = pool_oracle(&c, li, o);
         if f.is_some() && (oracle_fail.is_none() || (known.is_some() && k.is_none())) {
             oracle_fail = f;
@@ -670,9 +701,267 @@ fn pool_case(seed: u64, index: u64, r: &mut Rng) -> CaseOut {
     }
 }
 
+
+// ---------------------------------------------------------------------------------------
+// de-duplication family: k callers, one always-answering server (160 ms), arrivals at
+// 60j+20 ms, cancellations at 60j+40 ms, completions therefore at 60j ms
+// ---------------------------------------------------------------------------------------
+
+#[derive(Clone, Debug)]
+struct Caller {
+    arrive: u64,
+    key: usize,
+    cancel_at: Option<u64>,
+}
+
+const DLAT: u64 = 160;
+
+#[derive(Clone, Debug, Default)]
+struct DedupObs {
+    evs: Vec<(u8, usize, usize)>,
+    xch: Vec<Xch>,
+    /// per caller: Some(serial) if it received an answer
+    got: Vec<Option<usize>>,
+    /// per caller: actual arrival ms
+    arrived: Vec<f64>,
+    late: f64,
+}
+
+fn run_dedup(callers: &[Caller]) -> DedupObs {
+    let c = PoolCase {
+        srvs: vec![Srv { udp: true, tcp: true, trust: true, su: vec![(O_ANS, DLAT)], st: vec![(O_ANS, DLAT)] }],
+        nconc: 1,
+        timeout: 899,
+        strat: 0,
+        lookups: 1,
+    };
+    LOG.with(|l| {
+        *l.borrow_mut() = Log { srvs: c.srvs.clone(), ..Default::default() };
+    });
+    let rt = tokio::runtime::Builder::new_current_thread().enable_time().build().unwrap();
+    let pool = build_pool(&c);
+    rt.block_on(tokio::time::sleep(Duration::from_millis(2)));
+    let t0 = Instant::now();
+    LOG.with(|l| l.borrow_mut().t0 = Some(t0));
+    let results: Vec<(Option<usize>, f64)> = rt.block_on(async {
+        let futs = callers.iter().enumerate().map(|(ci, c)| {
+            let pool = pool.clone();
+            let c = c.clone();
+            async move {
+                tokio::time::sleep_until(tokio::time::Instant::from_std(t0 + Duration::from_millis(c.arrive))).await;
+                let arrived = ms_since(t0);
+                LOG.with(|l| l.borrow_mut().evs.push((0, ci, c.key)));
+                let fut = pool.send(request(c.key)).first_answer();
+                let r = match c.cancel_at {
+                    Some(at) => {
+                        let r = tokio::time::timeout_at(tokio::time::Instant::from_std(t0 + Duration::from_millis(at)), fut).await;
+                        match r {
+                            Ok(r) => Some(r),
+                            Err(_) => None,
+                        }
+                    }
+                    None => Some(fut.await),
+                };
+                match r {
+                    Some(r) => {
+                        LOG.with(|l| l.borrow_mut().evs.push((2, ci, 0)));
+                        let (code, _, serial) = classify(&r);
+                        (if code == 0 { Some(serial) } else { Some(usize::MAX) }, arrived)
+                    }
+                    None => {
+                        LOG.with(|l| l.borrow_mut().evs.push((3, ci, 0)));
+                        (None, arrived)
+                    }
+                }
+            }
+        });
+        futures_util::future::join_all(futs).await
+    });
+    let (evs, xch) = LOG.with(|l| {
+        let l = l.borrow();
+        (l.evs.clone(), l.xch.clone())
+    });
+    let mut late = 0.0f64;
+    for (c, r) in callers.iter().zip(results.iter()) {
+        late = late.max(r.1 - c.arrive as f64);
+    }
+    for x in &xch {
+        if let Some(o) = x.over {
+            late = late.max(o);
+        }
+    }
+    DedupObs { evs, xch, got: results.iter().map(|r| r.0).collect(), arrived: results.iter().map(|r| r.1).collect(), late }
+}
+
+fn gen_dedup(r: &mut Rng) -> Vec<Caller> {
+    let k = r.range(2, 5) as usize;
+    let nkeys = *r.pick(&[1usize, 1, 2]);
+    let with_cancel = r.chance(1, 3);
+    (0..k)
+        .map(|_| {
+            let j = r.below(8);
+            let arrive = 60 * j + 20;
+            let cancel_at = if with_cancel && r.chance(1, 3) { Some(60 * (j + r.range(0, 3)) + 40) } else { None };
+            Caller { arrive, key: r.below(nkeys as u64) as usize, cancel_at }
+        })
+        .collect()
+}
+
+fn dedup_text(cs: &[Caller]) -> String {
+    format!(
+        "dedup {}",
+        cs.iter()
+            .enumerate()
+            .map(|(i, c)| format!("c{}[k{} @{}{}]", i, c.key, c.arrive, c.cancel_at.map(|x| format!(" cancel@{x}")).unwrap_or_default()))
+            .collect::<Vec<_>>()
+            .join(" ")
+    )
+}
+
+fn dedup_oracle(cs: &[Caller], o: &DedupObs) -> (Option<String>, Option<String>) {
+    // a creator = caller at whose arrival an exchange for its key started
+    let creator_cancelled = cs.iter().enumerate().any(|(i, c)| {
+        c.cancel_at.is_some()
+            && o.got[i].is_none()
+            && o.xch.iter().any(|x| x.key == c.key && x.start_ms >= o.arrived[i] - 1.0 && x.start_ms < o.arrived[i] + 15.0)
+    });
+    let known = if creator_cancelled { Some("C18-dedup-creator-cancel".to_string()) } else { None };
+    let end_of = |x: &Xch| x.end_ms.unwrap_or(f64::INFINITY);
+    // one upstream exchange per distinct in-flight query
+    for (a, x) in o.xch.iter().enumerate() {
+        for y in o.xch.iter().skip(a + 1) {
+            if x.key == y.key && y.start_ms < end_of(x) - 10.0 && x.end_ms.is_some() {
+                return (
+                    Some(format!(
+                        "two upstream exchanges in flight for the same query k{}: #{} [{:.0},{:.0}] and #{} started at {:.0}",
+                        x.key, x.serial, x.start_ms, end_of(x), y.serial, y.start_ms
+                    )),
+                    known,
+                );
+            }
+        }
+    }
+    // a caller arriving while an exchange for its key is in flight shares it
+    for (i, c) in cs.iter().enumerate() {
+        match o.got[i] {
+            Some(usize::MAX) => return (Some(format!("caller {i} got an error although the server answers")), None),
+            Some(serial) => {
+                let Some(x) = o.xch.iter().find(|x| x.serial == serial) else {
+                    return (Some(format!("caller {i} received an answer of no recorded exchange")), None);
+                };
+                if x.key != c.key {
+                    return (Some(format!("caller {i} (k{}) received the answer of an exchange for k{}", c.key, x.key)), None);
+                }
+                for y in &o.xch {
+                    if y.key == c.key && y.start_ms + 10.0 < o.arrived[i] && o.arrived[i] + 10.0 < end_of(y) && y.end_ms.is_some() && y.serial != serial {
+                        return (Some(format!("caller {i} arrived while exchange #{} for its query was in flight but received #{}", y.serial, serial)), known);
+                    }
+                }
+            }
+            None => {
+                if c.cancel_at.is_none() {
+                    return (Some(format!("caller {i} never returned")), None);
+                }
+            }
+        }
+    }
+    (None, None)
+}
+
+fn dedup_case(seed: u64, index: u64, cs: Vec<Caller>, kind: &str) -> CaseOut {
+    let text_in = dedup_text(&cs);
+    let mut o = DedupObs::default();
+    let mut noisy = true;
+    for _try in 0..4 {
+        o = run_dedup(&cs);
+        if o.late < 12.0 {
+            noisy = false;
+            break;
+        }
+    }
+    let (oracle_fail, known) = if noisy { (None, None) } else { dedup_oracle(&cs, &o) };
+    let got: Vec<(usize, usize)> = o.got.iter().enumerate().filter_map(|(i, g)| g.filter(|s| *s != usize::MAX).map(|s| (i, s))).collect();
+    let skip = noisy && oracle_fail.is_none();
+    let coq = if skip {
+        "CSkip".to_string()
+    } else {
+        format!(
+            "CDedup {} {} {}",
+            coq_list(o.evs.iter().map(|(k, a, b)| format!("({k},({a},{b}))"))),
+            o.xch.len(),
+            coq_list(got.iter().map(|(c, s)| format!("({c},{s})")))
+        )
+    };
+    let obs_text = format!(
+        "runs={} got=[{}] events=[{}] late={:.1}",
+        o.xch.len(),
+        o.got.iter().enumerate().map(|(i, g)| format!("c{}:{}", i, match g { Some(usize::MAX) => "err".to_string(), Some(s) => format!("#{s}"), None => "cancelled".to_string() })).collect::<Vec<_>>().join(" "),
+        o.evs.iter().map(|(k, a, b)| match k { 0 => format!("arr c{a} k{b}"), 1 => format!("done #{a}"), 2 => format!("ret c{a}"), _ => format!("cancel c{a}") }).collect::<Vec<_>>().join(", "),
+        o.late
+    );
+    CaseOut {
+        index,
+        coq,
+        text: format!("seed={seed} index={index} {text_in} => {obs_text}"),
+        key: text_in,
+        nontrivial: !skip && cs.len() >= 2,
+        kind: if skip { "skipped-jitter".to_string() } else { kind.to_string() },
+        oracle_fail,
+        known,
+    }
+}
+
+fn srv(udp: bool, tcp: bool, trust: bool, su: &[(u8, u64)], st: &[(u8, u64)]) -> Srv {
+    Srv { udp, tcp, trust, su: su.to_vec(), st: st.to_vec() }
+}
+
+/// fixed cases at the first indices of every run: the witnesses of the recorded findings and
+/// the clauses of the statement in their simplest form
+fn witness(seed: u64, index: u64) -> Option<CaseOut> {
+    let pc = |srvs: Vec<Srv>, nconc: usize, timeout: u64| PoolCase { srvs, nconc, timeout, strat: 0, lookups: 1 };
+    Some(match index {
+        // F8: the deadline is only looked at when a round starts
+        0 => pool_case(seed, index, pc(vec![srv(true, true, true, &[(O_IO, 400)], &[(O_IO, 400)]), srv(true, true, true, &[(O_ANS, 300)], &[(O_ANS, 300)])], 1, 499), "witness"),
+        // a server that sets TC over TCP as well is asked again and again until the deadline; the healthy one is never tried
+        1 => pool_case(seed, index, pc(vec![srv(true, true, true, &[(O_TRUNC, 100)], &[(O_TRUNC, 100)]), srv(true, true, true, &[(O_ANS, 200)], &[(O_ANS, 200)])], 1, 1199), "witness"),
+        // truncation disables UDP for the whole lookup: a healthy UDP-only server is dropped unasked
+        2 => pool_case(seed, index, pc(vec![srv(true, false, true, &[(O_TRUNC, 100)], &[]), srv(true, false, true, &[(O_ANS, 200)], &[])], 1, 899), "witness"),
+        // creator of the shared lookup cancelled while a waiter keeps it alive: a third caller starts a second exchange
+        3 => dedup_case(
+            seed,
+            index,
+            vec![Caller { arrive: 20, key: 0, cancel_at: Some(100) }, Caller { arrive: 80, key: 0, cancel_at: None }, Caller { arrive: 140, key: 0, cancel_at: None }],
+            "witness-dedup",
+        ),
+        // the clauses in their simplest form
+        4 => pool_case(seed, index, pc(vec![srv(true, true, true, &[(O_TRUNC, 100)], &[(O_ANS, 100)])], 2, 899), "witness"),
+        5 => pool_case(seed, index, pc(vec![srv(true, true, false, &[(O_NX, 100)], &[(O_NX, 100)]), srv(true, true, true, &[(O_ANS, 200)], &[(O_ANS, 200)])], 1, 899), "witness"),
+        6 => pool_case(seed, index, pc(vec![srv(true, true, true, &[(O_BUSY, 100), (O_BUSY, 100), (O_ANS, 100)], &[(O_IO, 100)])], 2, 899), "witness"),
+        7 => dedup_case(
+            seed,
+            index,
+            vec![Caller { arrive: 20, key: 0, cancel_at: None }, Caller { arrive: 80, key: 0, cancel_at: None }, Caller { arrive: 80, key: 1, cancel_at: None }, Caller { arrive: 260, key: 0, cancel_at: None }],
+            "witness-dedup",
+        ),
+        _ => return None,
+    })
+}
+
+const WITNESSES: u64 = 8;
+
 fn case(seed: u64, index: u64) -> CaseOut {
+    if let Some(c) = witness(seed, index) {
+        return c;
+    }
     let mut r = Rng::for_case(seed, index);
-    pool_case(seed, index, &mut r)
+    if index % 5 == 4 {
+        let cs = gen_dedup(&mut r);
+        let kind = if cs.iter().any(|c| c.cancel_at.is_some()) { "dedup-cancel" } else { "dedup" };
+        dedup_case(seed, index, cs, kind)
+    } else {
+        let (c, family) = gen_pool(&mut r);
+        pool_case(seed, index, c, family)
+    }
 }
 
 fn main() {
@@ -687,7 +976,7 @@ fn main() {
         }
         return;
     }
-    let threads: usize = std::env::var("C18_THREADS").ok().and_then(|s| s.parse().ok()).unwrap_or(48);
+    let threads: usize = std::env::var("C18_THREADS").ok().and_then(|s| s.parse().ok()).unwrap_or(32);
     let next = Arc::new(AtomicU64::new(0));
     let results: Arc<Mutex<Vec<CaseOut>>> = Arc::new(Mutex::new(vec![]));
     let n = args.n;
@@ -716,7 +1005,7 @@ fn main() {
         "C18",
         &args,
         &cases,
-        "pool cases: 1..4 servers (UDP+TCP / UDP only / TCP only, trusted or not for NXDOMAIN), per (server, protocol) a script of exchange outcomes {answer, truncated, NXDOMAIN, no data, SERVFAIL, case mismatch, busy^k then answer, io error, connection reset, timeout, no connections} with a latency (100..400 ms, distinct per server; timeouts last the configured timeout), num_concurrent_reqs 0..4, timeout 499..1199 ms, ordering user / round robin / query statistics, 1..3 sequential lookups on the same pool. Non-trivial = at least two upstream exchanges; distinct by configuration and scripts.",
-        serde_json::json!({"skipped_for_timer_jitter": skipped, "threads": threads}),
+        "first 8 indices: fixed witnesses (findings and the clauses in their simplest form); every fifth case: de-duplication schedules (2..5 callers, 1..2 keys, arrivals at 60j+20 ms, optional cancellations, one server answering after 160 ms); pool cases: 1..4 servers (UDP+TCP / UDP only / TCP only, trusted or not for NXDOMAIN), per (server, protocol) a script of exchange outcomes {answer, truncated, NXDOMAIN, no data, SERVFAIL, case mismatch, busy^k then answer, io error, connection reset, timeout, no connections} with a latency (100..400 ms, distinct per server; timeouts last the configured timeout), num_concurrent_reqs 0..4, timeout 499..1199 ms, ordering user / round robin / query statistics, 1..3 sequential lookups on the same pool. Non-trivial = at least two upstream exchanges; distinct by configuration and scripts.",
+        serde_json::json!({"skipped_for_timer_jitter": skipped, "threads": threads, "witnesses": WITNESSES}),
     );
 }
